@@ -15,13 +15,17 @@ Theorem C19_check :
 Proof. exact check_max_depth_char. Qed.
 Print Assumptions C19_check.
 
-(* creating an executor in a process at depth d succeeds iff (not fork, or d = 0) and (unlimited or d < MAX) *)
+(* creating an executor in a process that has entered _process_worker (or in the root) succeeds iff (not fork, or depth 0) and
+   (unlimited or depth < MAX), where depth is the REAL nesting depth: the variable the check reads equals it from the first
+   statement of _process_worker on, initializer included (generated fact worker_installs_depth_before_user_code; false on the
+   pinned source: finding D1, fixed) *)
 Theorem C19_iff :
-  forall (MAX : Z) (t : tree) (p : nat) (m : string) (pr : proc),
-    nth_error (procs t) p = Some pr -> 0 <= p_depth pr ->
+  forall (MAX : Z) (ops : list op) (p : nat) (m : string) (pr : proc),
+    let t := run MAX ops in
+    nth_error (procs t) p = Some pr -> p_phase pr <> Loading ->
     (snd (step MAX t (Create p m)) = Done
-     <-> (m <> "fork" \/ p_depth pr = 0) /\ (MAX <= 0 \/ p_depth pr < MAX)).
-Proof. exact create_iff. Qed.
+     <-> (m <> "fork" \/ p_real pr = 0) /\ (MAX <= 0 \/ p_real pr < MAX)).
+Proof. intros MAX ops p m pr t. apply create_iff. apply Inv_run. Qed.
 Print Assumptions C19_iff.
 
 (* exceeding the limit raises instead of spawning: the tree is unchanged *)
@@ -31,20 +35,40 @@ Theorem C19_refused_spawns_nothing :
 Proof. exact create_refused_frame. Qed.
 Print Assumptions C19_refused_spawns_nothing.
 
-(* in every tree reachable by ANY history of creations and spawns (initial fill, respawn, resize,
-   reuse), every worker's depth is exactly one more than that of the process that created its
-   executor, the root is at depth 0, and executors exist only where the check passed *)
+(* in every tree reachable by ANY history of creations, spawns (initial fill, respawn, resize, reuse) and worker start-ups: real
+   depths are parent + 1 from a root at 0, the depth shipped to a worker is its real depth, the variable is 0 while a worker is
+   loading and its real depth afterwards, and executors constructed outside the loading phase exist only where the check on the
+   real depth passed *)
 Theorem C19_depth_invariant :
   forall (MAX : Z) (ops : list op), Inv MAX (run MAX ops).
 Proof. exact Inv_run. Qed.
 Print Assumptions C19_depth_invariant.
 
-(* hence no process ever runs deeper than MAX (when MAX >= 1) *)
-Theorem C19_bound :
+(* the depth a worker sees is exactly one more than that of the process that created its executor *)
+Theorem C19_worker_sees_parent_plus_one :
+  forall (MAX : Z) (ops : list op) (i : nat) (pr : proc) (q : nat),
+    nth_error (procs (run MAX ops)) i = Some pr -> p_parent pr = Some q -> p_phase pr <> Loading ->
+    exists pq, nth_error (procs (run MAX ops)) q = Some pq /\ p_var pr = p_real pq + 1 /\ p_real pr = p_real pq + 1.
+Proof. exact worker_sees_parent_plus_one. Qed.
+Print Assumptions C19_worker_sees_parent_plus_one.
+
+(* hence no process ever runs deeper than MAX (when MAX >= 1) -- unless some executor was constructed by a worker that was still
+   unpickling its own arguments.  The full statement (no exception) is false of the code: C19_bound_refuted_while_loading is the
+   witness, reproduced on the real code (known finding D2). *)
+Theorem C19_bound_partial :
   forall (MAX : Z) (ops : list op) (i : nat) (pr : proc),
-    1 <= MAX -> nth_error (procs (run MAX ops)) i = Some pr -> p_depth pr <= MAX.
+    1 <= MAX -> nth_error (procs (run MAX ops)) i = Some pr ->
+    p_real pr <= MAX \/ some_exec_made_while_loading (run MAX ops).
 Proof. exact depth_bound. Qed.
-Print Assumptions C19_bound.
+Print Assumptions C19_bound_partial.
+
+Theorem C19_bound_refuted_while_loading :
+  exists (ops : list op) (i : nat) (pr : proc), nth_error (procs (run 1 ops)) i = Some pr /\ p_real pr > 1.
+Proof.
+  exists [Create 0 "loky"; Spawn 0; Create 1 "loky"; Begin 1; Install 1; Spawn 1], 2%nat.
+  eexists. split; [vm_compute; reflexivity|]. vm_compute. reflexivity.
+Qed.
+Print Assumptions C19_bound_refuted_while_loading.
 
 (* the depth shipped to a worker, and the limit read from the environment *)
 Theorem C19_child_depth : forall (d : Z) (eff0 : list eff), child_depth d eff0 = (Ret (d + 1), eff0).
@@ -61,13 +85,15 @@ Proof. exact max_depth_char. Qed.
 Print Assumptions C19_max_depth_env.
 (* structural facts read off the source on this run: the worker installs the shipped depth before
    its loop and nothing else writes it; __init__ runs the check before any queue/process creation *)
-Theorem C19_structure : worker_installs_depth = true /\ init_checks_depth_first = true.
-Proof. exact (conj worker_installs_depth_ok init_checks_depth_first_ok). Qed.
+Theorem C19_structure :
+  worker_installs_depth = true /\ init_checks_depth_first = true /\
+  worker_installs_depth_before_user_code = true /\ bootstrapping_process_cannot_spawn = true.
+Proof. exact (conj worker_installs_depth_ok (conj init_checks_depth_first_ok (conj early_ok guard_ok))). Qed.
 Print Assumptions C19_structure.
 
 Example C19_example :
-  let t := run 2 [Create 0 "loky"; Spawn 0; Create 1 "loky"; Spawn 1; Create 2 "loky"; Create 1 "fork"] in
-  map p_depth (procs t) = [0; 1; 2] /\ List.length (execs t) = 2%nat
+  let t := run 2 [Create 0 "loky"; Spawn 0; Begin 1; Install 1; Create 1 "loky"; Spawn 1; Begin 2; Create 2 "loky"; Install 2; Create 1 "fork"] in
+  map p_real (procs t) = [0; 1; 2] /\ map p_var (procs t) = [0; 1; 2] /\ List.length (execs t) = 2%nat
   /\ snd (step 2 t (Create 2 "loky")) = RecursionError /\ snd (step 2 t (Create 1 "fork")) = RecursionError
   /\ snd (step 0 t (Create 2 "spawn")) = Done.
 Proof. vm_compute. repeat split; reflexivity. Qed.
